@@ -272,7 +272,7 @@ class World:
                 return ["look", 0, self._conf_name(lb.lookup(self.pkg[a] + ".m"))]
         except BaseException as ex:            # noqa: an exception no single thread could have obtained
             import traceback
-            tb = traceback.extract_tb(ex.__traceback__)
+            tb = [fr for fr in traceback.extract_tb(ex.__traceback__) if os.sep + "beartype" + os.sep in fr.filename]
             where = "; ".join(f"{os.path.basename(fr.filename)}:{fr.lineno}" for fr in tb[-3:])
             return ["exc", 0, f"{type(ex).__name__}: {str(ex)[:160]} @ {where}"]
         raise KeyError(name)
@@ -434,17 +434,20 @@ def _match(lb: Lab):
 
 def beh_to_case(beh, warm_pool, origin):
     """A TLC behaviour [(action, state)] -> replayable case."""
-    st0 = beh[0][1]
-    mix = [list(p) for p in st0["prog"]]
     steps = []
     final = beh[-1][1]
+    plen = max(len(p) for p in final["prog"]) if final["prog"] else 0
     for _, st in beh[1:]:
         la = st["last"]
         steps.append([la["t"], la["a"]])
-        if all(len(r) == len(p) for r, p in zip(st["res"], mix)) and all(len(s) == 0 for s in st["stk"]):
+        if st.get("fault", "none") != "none":
             final = st
             break
-    done = all(len(r) == len(p) for r, p in zip(final["res"], mix))
+    mix = [list(p) for p in final["prog"]]
+    done = (final.get("fault", "none") == "none" and all(len(s) == 0 for s in final["stk"])
+            and all(len(r) == len(p) for r, p in zip(final["res"], mix)) and len({len(p) for p in mix}) == 1)
+    while steps and steps[-1][1] == "init":
+        steps.pop()
     res = [[[r["k"], r["n"], r["s"]] for r in rs] for rs in final["res"]]
     reg = None
     if done:
@@ -563,6 +566,7 @@ def flat_events(events, tid):
 
 
 # =============================================================================== B3: exploration (child side)
+POOLFILES = {"utilcachepool.py", "utilcachepoolinstance.py", "utilcachepoollistfixed.py"}
 HOT = {"utilcachepool.py", "utilcachepoolinstance.py", "utilcachepoollistfixed.py", "utilmapunbounded.py", "utilmaplru.py",
        "utilcachecall.py", "confmain.py", "doormeta.py", "decorcache.py", "clawpkgmain.py", "clawpkgtrie.py",
        "_clawstate.py", "checkmake.py", "_wrapargs.py", "_wrapreturn.py", "calldatadecorfunc.py", "doorfunc.py",
@@ -584,17 +588,24 @@ def mkpolicy(spec, nthreads):
 
 
 def plan_child(job):
-    """Base runs of one mix (one per first thread): the preemption points."""
+    """Base runs of one mix (one per first thread): the preemption points (and the verdict on the base runs)."""
     lb = lab()
     mix = [tuple(p) for p in job["mix"]]
+    expected = set(job["expected"])
     warm_up(lb)
-    execute(mix, sched.NonPreemptive(), "line", keep_events=False)            # memo paths of shared parts are warm now
     pts = []
-    for first in range(1, len(mix) + 1):
-        pol = sched.NonPreemptive(first=first, record=True)
+    for first in [0] + list(range(1, len(mix) + 1)):       # run 0 warms the memo paths shared between executions
+        spec = {"kind": "pre", "first": max(first, 1), "pre": []}
+        pol = sched.NonPreemptive(first=max(first, 1), record=True)
         obs, _ = execute(mix, pol, job.get("gran", "line"), keep_events=False)
-        pts.append({"first": first, "points": pol.points, "steps": obs["steps"],
-                    "ok": obs["clean"] and not any(r[0] == "exc" for rs in obs["results"] for r in rs)})
+        viol = [{"key": k, "what": w, "case": {"mix": job["mix"], "policy": spec, "gran": job.get("gran", "line"),
+                                                "results": obs.get("results"), "registry": obs.get("registry")}}
+                for k, w in judge(obs, expected)]
+        if first or viol:
+            pts.append({"first": max(first, 1), "points": pol.points, "steps": obs["steps"], "violations": viol,
+                        "ok": obs["clean"] and not viol})
+        if not obs["clean"]:
+            break
     return pts
 
 
@@ -667,9 +678,17 @@ def single_child(job):
     if job.get("warm", True):
         warm_up(lb)
         execute(mix, sched.NonPreemptive(), "line", keep_events=False)
-    pol = mkpolicy(job["policy"], len(mix))
+    spec = dict(job["policy"], record=True) if job.get("expand") else job["policy"]
+    pol = mkpolicy(spec, len(mix))
     obs, _ = execute(mix, pol, job.get("gran", "line"), keep_events=True)
     obs["flat"] = flat_events(obs.pop("events"), 0) if obs["clean"] else []
+    obs.pop("switches", None)
+    if job.get("expand") and obs["clean"] and pol.taken_at:
+        # second preemptions: points of the thread that was switched to, before it finishes
+        rng = random.Random(job.get("seed", 0))
+        later = pol.points[pol.taken_at[-1] + 1:]
+        pick = later if len(later) <= job["expand"] else rng.sample(later, job["expand"])
+        obs["later"] = [[tid, k, rng.choice(list(others))] for (tid, k, others, _f) in pick]
     return obs
 
 
@@ -698,7 +717,7 @@ INVS = ["P1_Exclusive", "P1_PoolIffFree", "P1_NoDuplicate", "P1_UseHeld", "P1_No
         "P3_Linearisable", "P3_MemoSound", "P3_GlobalRestored", "P4_NoLostReg", "P4_LockOrder", "LockSane"]
 KINDS6 = ["Conf_ka", "TH_NA", "Bear_LA", "Dec_LA_D", "Hook_pa_C1", "Look_pa"]
 KINDS10 = ["Conf_ka", "Conf_ka2", "TH_NA", "TH_A", "Bear_LA", "Dec_LA_D", "Dec_LA_C1", "Hook_pa_C1", "Hook_pa_C2", "Look_pa"]
-POOLCONF = ["Conf_ka", "Conf_ka2", "Bear_LA", "Dec_LA_D", "Dec_LB_D"]
+POOLCONF = ["Conf_ka", "Conf_ka2", "Bear_LA", "Dec_LA_D", "Dec_LB_D"]     # [:3] in the quick tier
 MUTANTS = [   # (mutant, invariant it must violate, constants)
     ("NoPoolLock", "P1_NoFault", dict(n=2, plen=1, ops=["Bear_LA", "Dec_LA_D"], warm=True)),
     ("NoConfLock", "P2_Singleton", dict(n=2, plen=1, ops=["Conf_ka", "Conf_ka2"])),
@@ -792,9 +811,9 @@ MIX3 = [
 
 # =============================================================================== run
 BUDGET = {
-    "quick": dict(sim=150, sim3=60, single_cap=420, expand=28, expand_m=4, pct=50, rand=50, opcode=30, chunk=110,
+    "quick": dict(pristine_cap=120, pristine_m=5, sim=120, sim3=50, single_cap=300, expand=24, expand_m=4, pct=40, rand=40, opcode=25, chunk=100,
                   log_every=8, extra2=0, extra3=0),
-    "thorough": dict(sim=1500, sim3=600, single_cap=6000, expand=400, expand_m=6, pct=400, rand=400, opcode=200, chunk=260,
+    "thorough": dict(pristine_cap=2500, pristine_m=12, sim=1500, sim3=600, single_cap=6000, expand=400, expand_m=6, pct=400, rand=400, opcode=200, chunk=260,
                      log_every=25, extra2=24, extra3=8),
 }
 
@@ -848,37 +867,46 @@ def _tlc_jobs(d, tier):
 
     no_glob = [i for i in INVS if i != "P3_GlobalRestored"]
     # the faithful model of 0.23.0 (catch_warnings around code generation): everything but the global state
-    add("faithful_2x2_kinds", None, workers=8, n=2, plen=2, ops=KINDS6 if tier == "quick" else KINDS10, invs=no_glob)
-    add("faithful_2x1_all_cold", None, coverage=True, n=2, plen=1, ops=OPS, invs=no_glob)
-    add("faithful_2x1_all_warm", None, n=2, plen=1, ops=OPS, invs=no_glob, warm=True)
-    add("faithful_3x1_poolconf", None, workers=4, n=3, plen=1, ops=POOLCONF, invs=no_glob, warm=True)
+    add("faithful_2x2_kinds", None, workers=10, n=2, plen=2, ops=KINDS6 if tier == "quick" else KINDS10, invs=no_glob)
+    add("faithful_2x1_all_cold", None, coverage=True, n=2, plen=1, ops=OPS, invs=no_glob, lazy=False)
+    add("faithful_2x1_all_warm", None, n=2, plen=1, ops=OPS, invs=no_glob, warm=True, lazy=False)
+    add("faithful_3x1_poolconf", None, workers=4, n=3, plen=1, ops=POOLCONF[:3] if tier == "quick" else POOLCONF,
+        invs=no_glob, warm=True, lazy=False)
     if tier == "thorough":
-        add("faithful_3x2_poolconf", None, workers=8, n=3, plen=2, ops=["Conf_ka", "Bear_LA", "Dec_LA_D"], invs=no_glob)
-        add("faithful_3x1_all", None, workers=4, n=3, plen=1, ops=KINDS10, invs=no_glob, warm=True)
+        add("faithful_3x2_conf_th", None, workers=6, n=3, plen=2, ops=["Conf_ka", "Conf_ka2", "TH_NA"], invs=no_glob)
+        add("ideal_3x1_poolconf", None, workers=4, n=3, plen=1, ops=POOLCONF, legacy=False, warm=True, lazy=False)
     # the ideal design (warnings handled without a process-global save/restore): every property
-    add("ideal_2x1_all", None, n=2, plen=1, ops=OPS, legacy=False)
-    add("ideal_3x1_poolconf", None, n=3, plen=1, ops=POOLCONF, legacy=False, warm=True)
+    add("ideal_2x1_all", None, n=2, plen=1, ops=OPS, legacy=False, lazy=False)
     # the faithful model against the ideal property
-    add("faithful_global_state", "P3_GlobalRestored", n=2, plen=1, ops=["Bear_LA", "Dec_LA_D"], invs=["P3_GlobalRestored"])
+    add("faithful_global_state", "P3_GlobalRestored", n=2, plen=1, ops=["Bear_LA", "Dec_LA_D"], invs=["P3_GlobalRestored"],
+        lazy=False)
     for i, (mut, inv, kw) in enumerate(MUTANTS):
-        add(f"mutant_{mut}_{inv}", inv, mutant=mut, legacy=False, invs=([] if inv == "deadlock" else [inv]), **kw)
+        add(f"mutant_{mut}_{inv}", inv, mutant=mut, legacy=False, invs=([] if inv == "deadlock" else [inv]), lazy=False, **kw)
     return jobs
 
 
 def _run(rep, tier, seed, B, rng, lb, pool, d):
     from concurrent.futures import ThreadPoolExecutor
+    t0 = time.time()
+    stage = {}
+
+    def mark(name):
+        stage[name] = round(time.time() - t0, 1)
     tlc.sany("Threads.tla")
     tlc.sany("trace/ThreadsTrace.tla")
     # ------------------------------------------------------------------ R1: TLC (in the background)
     jobs = _tlc_jobs(d, tier)
     ex = ThreadPoolExecutor(6)
     futs = [(label, expect, ex.submit(tlc.run_tlc, "Threads.tla", path, **kw)) for label, path, kw, expect in jobs]
-    simcfg2 = write_file(d, "sim2.cfg", cfg_text(2, 2, OPS, invs=[i for i in INVS if i != "P3_GlobalRestored"]))
-    simcfg2w = write_file(d, "sim2w.cfg", cfg_text(2, 2, OPS, warm=True, invs=[i for i in INVS if i != "P3_GlobalRestored"]))
-    simcfg3 = write_file(d, "sim3.cfg", cfg_text(3, 2, OPS, warm=True, invs=[i for i in INVS if i != "P3_GlobalRestored"]))
-    sims = [("simulate 2x2 all kinds (cold pools)", False, ex.submit(tlc.simulate, "Threads.tla", simcfg2, B["sim"], 400, seed)),
-            ("simulate 2x2 all kinds (warm pools)", True, ex.submit(tlc.simulate, "Threads.tla", simcfg2w, B["sim"], 400, seed + 1)),
-            ("simulate 3x2 all kinds (warm pools)", True, ex.submit(tlc.simulate, "Threads.tla", simcfg3, B["sim3"], 600, seed + 2))]
+    # (the invariants are model-checked above; the simulated behaviours are judged on the real code)
+    simcfg2 = write_file(d, "sim2.cfg", cfg_text(2, 2, OPS, invs=["LockSane"]))
+    simcfg2w = write_file(d, "sim2w.cfg", cfg_text(2, 2, OPS, warm=True, invs=["LockSane"]))
+    simcfg3 = write_file(d, "sim3.cfg", cfg_text(3, 2, OPS, warm=True, invs=["LockSane"]))
+    simcfg1 = write_file(d, "sim1.cfg", cfg_text(1, 1, OPS, invs=["LockSane"], lazy=False))
+    seq_sim = ex.submit(tlc.simulate, "Threads.tla", simcfg1, 96, 60, seed + 3)
+    sims = [("simulate 2x2 all kinds (cold pools)", False, ex.submit(tlc.simulate, "Threads.tla", simcfg2, B["sim"], 150, seed)),
+            ("simulate 2x2 all kinds (warm pools)", True, ex.submit(tlc.simulate, "Threads.tla", simcfg2w, B["sim"], 150, seed + 1)),
+            ("simulate 3x2 all kinds (warm pools)", True, ex.submit(tlc.simulate, "Threads.tla", simcfg3, B["sim3"], 220, seed + 2))]
     # ------------------------------------------------------------------ mixes and their sequential outcomes
     mixes = list(MIX2) + list(MIX3)
     for _ in range(B["extra2"]):
@@ -886,6 +914,7 @@ def _run(rep, tier, seed, B, rng, lb, pool, d):
     for _ in range(B["extra3"]):
         mixes.append(tuple(tuple(rng.choice(OPS) for _ in range(rng.choice((1, 2)))) for _ in range(3)))
     expected = oracle(d, mixes, rep)
+    mark("oracle")
     seqjobs = [{"mix": m, "order": list(o), "mi": mi} for mi, m in enumerate(mixes) for o in orders_of(m)]
     if len(seqjobs) > 1500:
         keep = [j for j in seqjobs if len(orders_of(mixes[j["mi"]])) <= 20]
@@ -903,20 +932,31 @@ def _run(rep, tier, seed, B, rng, lb, pool, d):
             rep.machinery(f"the sequential semantics of Threads.tla (SeqApply) and the real code disagree on mix {mixes[mi]}: "
                           f"real {sorted(outs)} vs TLC {sorted(expected[mi])}: the oracle cannot be trusted")
     rep.count(len(seqjobs))
+    mark("sequential reference")
     rep.note(f"sequential reference: {len(seqjobs)} orders of {len(mixes)} mixes in fresh forks agree with SeqOutcomesOf")
     # ------------------------------------------------------------------ B3 planning: base runs per mix
-    plans = pool.map(plan_child, [{"mix": m} for m in mixes], chunksize=1)
+    plans = pool.map(plan_child, [{"mix": m, "expected": sorted(expected[mi])} for mi, m in enumerate(mixes)], chunksize=1)
     chunks = []
+    pristine = []
+    seen_keys = {}
     total_points = 0
     for mi, (m, pl) in enumerate(zip(mixes, plans)):
         cases = []
         singles = []
+        broken = False
         for base in pl:
-            if not base["ok"]:
-                rep.machinery(f"non-preemptive base run of {m} failed")
+            for v in base["violations"]:          # even the non-preemptive run misbehaves (e.g. self-deadlock)
+                seen_keys.setdefault(json.dumps(v["key"], sort_keys=True), v)
+                broken = True
+        if broken:
+            continue
+        for base in pl:
             for (tid, k, others, fn) in base["points"]:
                 for tgt in others:
                     singles.append(({"kind": "pre", "first": base["first"], "pre": [[tid, k, tgt]]}, fn in HOT))
+                    if fn in POOLFILES:            # the pools survive from one execution to the next: these switch
+                        pristine.append({"mix": m, "mi": mi, "gran": "line",       # points also from a pristine fork
+                                         "policy": {"kind": "pre", "first": base["first"], "pre": [[tid, k, tgt]]}})
         total_points += len(singles)
         if len(singles) > B["single_cap"]:
             hot = [s for s, h in singles if h]
@@ -947,9 +987,30 @@ def _run(rep, tier, seed, B, rng, lb, pool, d):
             oc += [{"kind": "pct", "seed": seed * 100003 + mi * 1021 + i, "depth": 2 + i % 3, "est": est * 6} for i in range(B["opcode"])]
             chunks.append({"mix": m, "mi": mi, "cases": oc, "expected": sorted(expected[mi]), "seed": seed + mi,
                            "chunk": [mi, "opcode"], "log_every": B["log_every"], "gran": "opcode"})
+    mark("plan")
     rep.note(f"B3 plan: {len(mixes)} mixes, {total_points} single-preemption points at line boundaries, "
              f"{sum(len(c['cases']) for c in chunks)} first-level schedules in {len(chunks)} chunks")
     # ------------------------------------------------------------------ B2: model schedules (wait for the simulations)
+    # binding of the granularity: run alone, every operation must perform exactly the model's visible events
+    res1, behs1 = seq_sim.result()
+    rep.tlc(res1, "simulate 1 thread x 1 operation (event sequence of every operation)")
+    one = {}
+    for beh in behs1:
+        c = beh_to_case(beh, False, "single operation")
+        if c["model_done"]:
+            one.setdefault(c["mix"][0][0], c)
+    if set(one) != set(OPS):
+        rep.machinery(f"the single-operation simulation did not reach every operation: missing {sorted(set(OPS) - set(one))}")
+    for c, o in zip(one.values(), pool.map(replay_case, list(one.values()))):
+        rep.count(1)
+        mproj, _ = model_project(c)
+        if not (o["clean"] and o["n_mismatch"] == 0 and o["skipped"] == 0 and o["unconsumed"] == 0):
+            rep.machinery(f"operation {c['mix'][0][0]} run alone does not perform the visible events of the model "
+                          f"(model {[a for _, a in c['steps'] if a in LABEL_EVENT]}, real {o.get('visible_events')}): "
+                          f"Threads.tla no longer decomposes the operation as the code does")
+        if canon_outcome(o["proj"], o["registry"]) != canon_outcome(mproj, c["model_reg"]):
+            rep.machinery(f"operation {c['mix'][0][0]} run alone: real outcome {o['proj']} differs from the model's {mproj}")
+    mark("single-operation conformance")
     b2cases = []
     for label, warm, fut in sims:
         res, behs = fut.result()
@@ -960,6 +1021,7 @@ def _run(rep, tier, seed, B, rng, lb, pool, d):
             c = beh_to_case(beh, warm, f"{label} #{i}")
             if c["model_done"]:
                 b2cases.append(c)
+    mark("simulations done")
     tlc_results = {}
     for label, expect, fut in futs:
         res = fut.result()
@@ -981,6 +1043,7 @@ def _run(rep, tier, seed, B, rng, lb, pool, d):
                 c = beh_to_case(beh, warm, f"counter-example of {label}")
                 c["expect_violation_in_model"] = expect
                 b2cases.append(c)
+    mark("tlc jobs done")
     cov = own_coverage(tlc_results["faithful_2x1_all_cold"].output)
     never = sorted(a for a, (dd, t) in cov.items() if t == 0 and a not in ("G_fill0", "Finished"))
     if not cov or never:
@@ -1011,11 +1074,15 @@ def _run(rep, tier, seed, B, rng, lb, pool, d):
         if is_ce:
             rep.note(f"counter-example of {c['origin'].split('of ')[-1]} replayed on the real code: followed {o['followed']}/{o['n_vis']} "
                      f"steps, skipped {o['skipped']}, real verdict: {[k['class'] for k, _ in viols] or 'no violation'}")
+    mark("b2 replayed")
     rep.add("model_schedules_replayed", len(b2cases))
     rep.add("model_schedules_followed_exactly", n_faithful)
-    if b2cases and n_faithful < 0.5 * (n_faithful + n_div):
-        rep.machinery(f"only {n_faithful} of {n_faithful + n_div} model schedules could be followed step by step: "
-                      f"the model's granularity no longer matches the code")
+    rep.add("model_schedules_diverged", n_div)
+    if n_faithful == 0:
+        rep.machinery("no concurrent model schedule could be followed step by step on the real code")
+    if n_div > n_faithful:
+        rep.spec_drift(f"{n_div} of {n_faithful + n_div} model schedules were infeasible on the real code (a thread was blocked "
+                       f"where the model lets it run): the code synchronises more than Threads.tla")
     if b2res:
         rep.sample({"b2": b2cases[0]["origin"], "mix": b2cases[0]["mix"], "steps": len(b2cases[0]["steps"]),
                     "real": b2res[0].get("proj")})
@@ -1024,8 +1091,32 @@ def _run(rep, tier, seed, B, rng, lb, pool, d):
     nexec = 0
     pending = chunks
     rounds = 0
-    seen_keys = {}
     agg = {"steps": 0, "second": 0, "pre_taken": 0, "max_switch": 0}
+    if len(pristine) > B["pristine_cap"]:
+        pristine = rng.sample(pristine, B["pristine_cap"])
+    for i, job in enumerate(pristine):
+        job["expand"], job["seed"] = B["pristine_m"], seed * 31 + i
+    npr = 0
+    for level in (1, 2):
+        pres = pool.map(single_child, pristine)
+        nxt = []
+        for job, o in zip(pristine, pres):
+            nexec += 1
+            npr += 1
+            agg["steps"] += o["steps"]
+            for key, what in judge(o, expected[job["mi"]]):
+                seen_keys.setdefault(json.dumps(key, sort_keys=True),
+                                     {"key": key, "what": what,
+                                      "case": {"mix": job["mix"], "policy": job["policy"], "gran": "line", "pristine": True,
+                                               "results": o.get("results")}})
+            if o.get("flat") and npr % B["log_every"] == 0:
+                logs.append(o["flat"])
+            for pre2 in o.get("later", []):
+                agg["second"] += 1
+                nxt.append({"mix": job["mix"], "mi": job["mi"], "gran": "line",
+                            "policy": dict(job["policy"], pre=job["policy"]["pre"] + [pre2])})
+        pristine = nxt
+    rep.add("b3_pristine_fork_schedules", npr)
     while pending and rounds < 4:
         rounds += 1
         outs = pool.map(explore_child, pending, chunksize=1)
@@ -1044,6 +1135,7 @@ def _run(rep, tier, seed, B, rng, lb, pool, d):
             if s["tainted_at"] is not None and s["remaining"]:
                 nxt.append(dict(ch, cases=s["remaining"]))
         pending = nxt
+    mark("b3 explored")
     rep.count(nexec)
     rep.add("b3_executions", nexec)
     rep.add("b3_scheduling_steps", agg["steps"])
@@ -1064,6 +1156,8 @@ def _run(rep, tier, seed, B, rng, lb, pool, d):
     # ------------------------------------------------------------------ R3: trace validation of the recorded logs
     nval = validate_logs(rep, d, logs, ex)
     rep.add("traces_validated_against_impl", nval)
+    mark("traces validated")
+    rep.note("stage times (s since start): " + json.dumps(stage))
     if logs:
         rep.sample({"b3_log_head": logs[0][:6]})
     ex.shutdown()
@@ -1124,6 +1218,22 @@ def validate_logs(rep, d, logs, ex):
                     fh.write(json.dumps(e) + "\n")
         futs.append((b, path, ex.submit(tlc.run_tlc, "trace/ThreadsTrace.tla", "trace/ThreadsTrace.cfg", workers=1,
                                         env={"TRACE_FILE": path}, heap="2g")))
+    # the trace specification must bind: one corrupted copy of an accepted execution has to be rejected
+    probe = next((lg for lg in logs if any(e["ev"] == "Res" for e in lg)), None)
+    selftest = None
+    if probe is not None:
+        bad = [dict(e) for e in probe]
+        for e in bad:
+            if e["ev"] == "Res":
+                e["k"] = "tampered"
+                break
+        path = os.path.join(d, "trace_selftest.ndjson")
+        with open(path, "w") as fh:
+            for lg in (probe, bad):          # the accepted execution, then its copy with one response altered
+                for e in lg:
+                    fh.write(json.dumps(e) + "\n")
+        selftest = ex.submit(tlc.run_tlc, "trace/ThreadsTrace.tla", "trace/ThreadsTrace.cfg", workers=1,
+                             env={"TRACE_FILE": path}, heap="2g")
     nval = 0
     for b, path, fut in futs:
         res = fut.result()
@@ -1144,6 +1254,12 @@ def validate_logs(rep, d, logs, ex):
         rep.violation({"class": "trace_rejected", "clause": clause, "ops": sorted(set(o for o in mixops if o))[:4]},
                       f"ThreadsTrace.tla rejects a recorded execution at event {pos}: {clause}; last events {evs}",
                       {"events": flat[max(0, (pos or 1) - 60):(pos or 1) + 2], "clause": clause})
+    if selftest is None:
+        rep.machinery("no recorded execution contains a response: the trace validation is vacuous")
+    sres = selftest.result()
+    rep.tlc(sres, "trace validation self-test (tampered response must be rejected)")
+    if sres.ok:
+        rep.machinery("ThreadsTrace.tla accepted a tampered execution: the trace specification does not bind")
     return nval
 
 
